@@ -412,8 +412,14 @@ func RunScenario(t *testing.T, rec *Recorder, sc *Scenario) {
 			r.mu.Lock()
 			r.genInvs, r.genNs = 0, 0
 			r.mu.Unlock()
+			howMk := "subtest"
 			t.Run(name, func(st *testing.T) {
-				defer func() { failed, skipped = st.Failed(), st.Skipped() }()
+				defer func() {
+					if p := recover(); p != nil { // Check itself crashed (a property's panic never gets here)
+						howMk = "panic"
+					}
+					failed, skipped = st.Failed(), st.Skipped()
+				}()
 				defer func() {
 					// how much time was left when Check gave up / finished, against what its test cases cost
 					d, has := st.Deadline()
@@ -430,7 +436,7 @@ func RunScenario(t *testing.T, rec *Recorder, sc *Scenario) {
 					rapid.MakeCheck(prop)(st)
 				}
 			})
-			rec.Emit("run.end", F{"run": i + 1, "how": "subtest", "panic": "", "failed": failed, "failnow": failed, "skipped": skipped})
+			rec.Emit("run.end", F{"run": i + 1, "how": howMk, "panic": "", "failed": failed || howMk == "panic", "failnow": failed, "skipped": skipped})
 		case "example":
 			// Generator.Example: every call of a Custom generator function is an invocation with its own context and cleanups
 			bg := r.genv.Build(run.ExampleGen)
